@@ -110,6 +110,12 @@ impl VideoState {
     self.current_mode
   }
 
+  /// Verification hook (add-only): (line, mode, dots elapsed in the mode)
+  #[cfg(gb_dynarec_verif)]
+  pub fn verif_position(&self) -> (u8, u8, usize) {
+    (self.current_line, self.current_mode, self.current_mode_dots)
+  }
+
   pub fn set_lcd_control(&mut self, value: u8) {
     self.lcd.set_enabled(value & 0x80 != 0);
     self.window_map_offset = if value & 0x40 == 0 {
